@@ -13,6 +13,7 @@ use std::io::{BufRead, BufReader, Write};
 use std::process::{Command, Stdio};
 use std::sync::atomic::{AtomicU64, Ordering};
 use std::sync::mpsc;
+use std::sync::Mutex;
 use std::time::{Duration, Instant};
 
 pub struct Part {
@@ -579,7 +580,72 @@ pub fn drive(check: &CheckDef, opts: &DriverOpts) -> i32 {
             *known_hits.entry(k).or_insert(0) += n as u64;
             continue;
         }
-        let is_death = first.violation.oracle.starts_with("worker.died") || first.violation.oracle == "hang";
+        if first.violation.oracle == "hang" {
+            // The watchdog is a wall-clock cap and therefore load dependent. Up to two occurrences are run alone for
+            // hang_confirm_s(): one that completes was slow, not hung; one that does not is a hang, attributed
+            // (debugger sample taken at ten times the cap) to the code that is spinning, so that hangs with
+            // different causes are reported separately and a recorded finding can be told from a new one.
+            let mut occs: Vec<Found> = vec![first];
+            occs.extend(fs.into_iter().take(1));
+            let mut seen_sites: std::collections::BTreeSet<String> = Default::default();
+            let mut slow = 0u64;
+            for (k, occ) in occs.iter().enumerate() {
+                let mut viol = occ.violation.clone();
+                let mut rp = json!({
+                    "check": check.property, "profile": opts.profile, "scenario": occ.scenario, "seed": opts.seed,
+                    "case_index": occ.i, "case_seed": occ.case_seed, "violation": viol, "class": class, "occurrences_in_run": n,
+                    "minimisation": {"minimised": false, "reason": "process-death class: reported unminimised"}, "trace": occ.trace,
+                });
+                let h = super::rng::fnv(serde_json::to_string(&rp["trace"]).unwrap_or_default().as_bytes());
+                let _ = std::fs::create_dir_all(replay_dir());
+                let path = format!("{}/{}-{:016x}.json", replay_dir(), check.property, h);
+                let _ = std::fs::write(&path, serde_json::to_string_pretty(&rp).unwrap_or_default());
+                if let Ok(mut g) = LAST_HANG_SITE.lock() {
+                    *g = None;
+                }
+                match replay_in_subprocess(&path, part.case_cap_s * 10) {
+                    ReplayResult::Reproduced => {
+                        let site = LAST_HANG_SITE.lock().ok().and_then(|mut g| g.take());
+                        let key = site.as_ref().map(|s| s.0.clone()).unwrap_or_else(|| "unknown".into());
+                        if let Some((module, func)) = site {
+                            viol.site_file = module.clone();
+                            viol.message = format!("no progress in {module}");
+                            viol.detail = format!("{}; still running alone after {} s, spinning in {module} (sampled frame {func})", viol.detail, hang_confirm_s().max(part.case_cap_s * 10));
+                            rp["violation"] = json!(viol);
+                            let _ = std::fs::write(&path, serde_json::to_string_pretty(&rp).unwrap_or_default());
+                        }
+                        if !seen_sites.insert(key) {
+                            let _ = std::fs::remove_file(&path);
+                            continue;
+                        }
+                        if let Some(kf) = known.matches(&viol, &occ.scenario) {
+                            *known_hits.entry(kf).or_insert(0) += if k == 0 { n as u64 } else { 1 };
+                            let _ = std::fs::remove_file(&path);
+                            continue;
+                        }
+                        violations_reported += 1;
+                        out_lines.push(format!("VIOLATION property={} replay={}", check.property, path));
+                        eprintln!("  oracle={} detail={} ({} occurrences in the class)", viol.oracle, viol.detail, n);
+                        reported_json.push(json!({"oracle": viol.oracle, "detail": viol.detail, "replay": path, "occurrences": n}));
+                    }
+                    ReplayResult::NotReproduced(how) => {
+                        let _ = std::fs::remove_file(&path);
+                        slow += 1;
+                        if let Some((module, _)) = LAST_HANG_SITE.lock().ok().and_then(|mut g| g.take()) {
+                            // completed, but only after more than ten times the cap: worth a line
+                            eprintln!("NOTE: case {} of {} completed alone only after a long run ({how}); most of the time was spent in {module}", occ.i, occ.scenario);
+                            *total.counters.entry(format!("probe.watchdog.very_slow_case_in.{module}")).or_insert(0) += 1;
+                        }
+                    }
+                }
+            }
+            if slow > 0 {
+                eprintln!("NOTE: {slow} case(s) of {} exceeded the {} s watchdog under load but complete when run alone: slow, not hung (not a violation)", occs[0].scenario, part.case_cap_s);
+                slow_cases += slow;
+            }
+            continue;
+        }
+        let is_death = first.violation.oracle.starts_with("worker.died");
         let (trace, viol, min_info) = if is_death {
             (first.trace.clone(), first.violation.clone(), json!({"minimised": false, "reason": "process-death class: reported unminimised"}))
         } else {
@@ -615,38 +681,7 @@ pub fn drive(check: &CheckDef, opts: &DriverOpts) -> i32 {
                 reported_json.push(json!({"oracle": viol.oracle, "detail": viol.detail, "replay": path, "occurrences": n}));
             }
             ReplayResult::NotReproduced(why) => {
-                if viol.oracle == "hang" {
-                    // The watchdog is a wall-clock cap and therefore load dependent: a case that completes when it
-                    // runs alone (with ten times the cap) was slow, not hung. Try the other occurrences of the class
-                    // before concluding that.
-                    let _ = std::fs::remove_file(&path);
-                    let mut reproduced = false;
-                    for other in fs.iter().take(8) {
-                        let mut rp = replay.clone();
-                        rp["trace"] = other.trace.clone();
-                        rp["case_index"] = json!(other.i);
-                        rp["case_seed"] = json!(other.case_seed);
-                        rp["violation"] = json!(other.violation);
-                        let h = super::rng::fnv(serde_json::to_string(&rp["trace"]).unwrap_or_default().as_bytes());
-                        let path2 = format!("{}/{}-{:016x}.json", replay_dir(), check.property, h);
-                        let _ = std::fs::write(&path2, serde_json::to_string_pretty(&rp).unwrap_or_default());
-                        if let ReplayResult::Reproduced = replay_in_subprocess(&path2, part.case_cap_s * 10) {
-                            violations_reported += 1;
-                            out_lines.push(format!("VIOLATION property={} replay={}", check.property, path2));
-                            eprintln!("  oracle={} detail={} ({} occurrences)", other.violation.oracle, other.violation.detail, n);
-                            reported_json.push(json!({"oracle": other.violation.oracle, "detail": other.violation.detail, "replay": path2, "occurrences": n}));
-                            reproduced = true;
-                            break;
-                        }
-                        let _ = std::fs::remove_file(&path2);
-                    }
-                    if !reproduced {
-                        eprintln!("NOTE: {n} case(s) of {} exceeded the {} s watchdog under load but complete when run alone: slow, not hung (not a violation)", first.scenario, part.case_cap_s);
-                        slow_cases += n as u64;
-                    }
-                } else {
-                    harness_errors.push(format!("violation class {class} did not reproduce from {path} in a fresh process: {why}"));
-                }
+                harness_errors.push(format!("violation class {class} did not reproduce from {path} in a fresh process: {why}"));
             }
         }
     }
@@ -693,6 +728,80 @@ pub enum ReplayResult {
     NotReproduced(String),
 }
 
+/// Where the last confirmed hang was spinning: (module path, sampled functions). None when no
+/// debugger is available - the hang is then reported without a site and cannot match a known finding.
+pub static LAST_HANG_SITE: Mutex<Option<(String, String)>> = Mutex::new(None);
+
+const REPO_CRATES: [&str; 7] = ["skrifa", "incremental_font_transfer", "klippa", "write_fonts", "shared_brotli_patch_decoder", "read_fonts", "font_types"];
+
+/// Module path of a demangled function name: the leading lower-case segments.
+fn module_of(func: &str) -> Option<(usize, String)> {
+    let f = func.trim_start_matches('<');
+    let krate = f.split("::").next()?;
+    let rank = REPO_CRATES.iter().position(|c| *c == krate)?;
+    let segs: Vec<&str> = f.split("::").collect();
+    let mut keep = Vec::new();
+    for (i, sg) in segs.iter().enumerate() {
+        let first = sg.chars().next().unwrap_or('{');
+        if i + 1 == segs.len() || !(first.is_ascii_lowercase() || first == '_') || sg.contains(' ') {
+            break;
+        }
+        keep.push(*sg);
+    }
+    if keep.is_empty() {
+        return None;
+    }
+    Some((rank, keep.join("::")))
+}
+
+/// Samples the stacks of a hung process with the system debugger and names the innermost frame that
+/// belongs to the repository's crates (glyph-loading / IFT / subsetting crates preferred over the readers).
+fn sample_hang_site(pid: u32) -> Option<(String, String)> {
+    let mut votes: BTreeMap<String, (usize, u32, String)> = BTreeMap::new();
+    for _ in 0..3 {
+        let out = Command::new("timeout").args(["20", "gdb", "-p", &pid.to_string(), "-batch", "-ex", "thread apply all bt 60"]).stdin(Stdio::null()).stderr(Stdio::null()).output().ok()?;
+        let text = String::from_utf8_lossy(&out.stdout).to_string();
+        // per thread: the innermost repository frame of the best-ranked crate
+        let mut best: Option<(usize, String, String)> = None;
+        let mut thread_best: Option<(usize, String, String)> = None;
+        for line in text.lines().chain(std::iter::once("Thread end")) {
+            if line.starts_with("Thread ") {
+                if let Some(tb) = thread_best.take() {
+                    if best.as_ref().map(|b| tb.0 < b.0).unwrap_or(true) {
+                        best = Some(tb);
+                    }
+                }
+                continue;
+            }
+            if !line.starts_with('#') {
+                continue;
+            }
+            // "#6  0x... in func (args) at file:line"  or  "#6  func (args) at file:line"
+            let rest = line.splitn(2, char::is_whitespace).nth(1).unwrap_or("").trim_start();
+            let rest = if rest.starts_with("0x") { rest.splitn(2, " in ").nth(1).unwrap_or("") } else { rest };
+            let func = rest.split(" (").next().unwrap_or("").trim();
+            if let Some((rank, module)) = module_of(func) {
+                if thread_best.as_ref().map(|b| rank < b.0).unwrap_or(true) {
+                    thread_best = Some((rank, module, func.to_string()));
+                }
+            }
+        }
+        if let Some((rank, module, func)) = best {
+            let e = votes.entry(module).or_insert((rank, 0, func));
+            e.1 += 1;
+        }
+        std::thread::sleep(Duration::from_millis(700));
+    }
+    votes.into_iter().max_by_key(|(_, (rank, n, _))| (*n, usize::MAX - *rank)).map(|(m, (_, _, f))| (m, f))
+}
+
+/// How long a case may run alone before it is called a hang (seconds). A case that exceeds the watchdog
+/// under load, or even ten times the watchdog alone, but completes within this window is slow - possibly
+/// pathologically so - but it does terminate, and the totality properties speak of loops without bound.
+pub fn hang_confirm_s() -> u64 {
+    std::env::var("VERIF_HANG_CONFIRM_S").ok().and_then(|s| s.parse().ok()).unwrap_or(1500)
+}
+
 pub fn replay_in_subprocess(path: &str, cap_s: u64) -> ReplayResult {
     let exe = std::env::current_exe().expect("current_exe");
     let mut child = match Command::new(exe).arg("replay").arg(path).stdin(Stdio::null()).stdout(Stdio::piped()).stderr(Stdio::null()).spawn() {
@@ -700,20 +809,29 @@ pub fn replay_in_subprocess(path: &str, cap_s: u64) -> ReplayResult {
         Err(e) => return ReplayResult::NotReproduced(format!("spawn: {e}")),
     };
     let start = Instant::now();
+    let mut sampled = false;
     loop {
         match child.try_wait() {
             Ok(Some(st)) => {
                 return if st.code() == Some(1) || st.code().is_none() {
                     ReplayResult::Reproduced
                 } else {
-                    ReplayResult::NotReproduced(format!("exit {:?}", st.code()))
+                    ReplayResult::NotReproduced(format!("exit {:?} after {} s", st.code(), start.elapsed().as_secs()))
                 };
             }
             Ok(None) => {
-                if start.elapsed().as_secs() > cap_s {
+                let el = start.elapsed().as_secs();
+                if el > cap_s && !sampled {
+                    // still running alone after ten times the cap: note where it is spinning, keep waiting
+                    sampled = true;
+                    if let Ok(mut g) = LAST_HANG_SITE.lock() {
+                        *g = sample_hang_site(child.id());
+                    }
+                }
+                if el > cap_s.max(hang_confirm_s()) {
+                    // "loops without bound" is decided by a bound: no completion, alone, within this window
                     let _ = child.kill();
                     let _ = child.wait();
-                    // a hang that persists alone with 10x cap is confirmed
                     return ReplayResult::Reproduced;
                 }
                 std::thread::sleep(Duration::from_millis(20));
@@ -771,6 +889,19 @@ pub fn replay_main(path: &str, lookup: &dyn Fn(&str, &str) -> Option<(Box<dyn Sc
     };
     if want.oracle.starts_with("worker.died") || want.oracle == "hang" {
         // run it; if the process survives, it did not reproduce
+        if want.oracle == "hang" {
+            // a reproducing hang never returns: a timer reports it (the driver's own confirmation kills the
+            // subprocess earlier, after ten times the per-case cap)
+            let limit: u64 = hang_confirm_s();
+            let prop = want.property.clone();
+            let pth = path.to_string();
+            std::thread::spawn(move || {
+                std::thread::sleep(Duration::from_secs(limit));
+                println!("reproduced: the trace has not completed after {limit} s");
+                println!("VIOLATION property={prop} replay={pth}");
+                std::process::exit(1);
+            });
+        }
         let mut st = Stats::default();
         let (verdict, _) = sc.run_trace(&v["trace"], &mut st);
         match verdict {
